@@ -39,6 +39,8 @@ LIESEL_SETS = [
     [{"type": "HMC", "keys": ["beta", "mu"]}, {"type": "GIBBS", "keys": ["z"]}],
     [{"type": "IWLS", "keys": ["log_sigma"]}, {"type": "MH", "keys": ["beta"]}, {"type": "GIBBS", "keys": ["z"]}],
     [{"type": "RW", "keys": ["offset"]}, {"type": "HMC", "keys": ["log_sigma", "mu"]}],
+    [{"type": "PPGIBBS", "keys": ["y_rep"]}, {"type": "RW", "keys": ["log_sigma"]}, {"type": "RW", "keys": ["w_transformed"]}],
+    [{"type": "IWLS", "keys": ["w_transformed", "mu"]}, {"type": "PPGIBBS", "keys": ["y_rep"]}],
 ]
 DICT_SETS = [
     [{"type": "RW", "keys": ["a"]}, {"type": "IWLS", "keys": ["b"]}, {"type": "HMC", "keys": ["c"]}],
@@ -46,7 +48,7 @@ DICT_SETS = [
 ]
 ENGINE_SETS = [
     {"kernels": [{"type": "RW", "keys": ["mu"]}, {"type": "IWLS", "keys": ["beta"]}, {"type": "GIBBS", "keys": ["z"]}, {"type": "HMC", "keys": ["log_sigma"]}, {"type": "RW", "keys": ["offset"]}], "chunk": 5},
-    {"kernels": [{"type": "GIBBS", "keys": ["z"]}, {"type": "NUTS", "keys": ["beta", "mu"]}, {"type": "MH", "keys": ["log_sigma"]}], "chunk": 10},
+    {"kernels": [{"type": "GIBBS", "keys": ["z"]}, {"type": "NUTS", "keys": ["beta", "mu"]}, {"type": "MH", "keys": ["log_sigma"]}, {"type": "PPGIBBS", "keys": ["y_rep"]}, {"type": "RW", "keys": ["w_transformed"]}], "chunk": 10},
     {"kernels": [{"type": "IWLS", "keys": ["log_sigma", "mu"]}, {"type": "RW", "keys": ["beta"]}, {"type": "RW", "keys": ["offset"]}], "chunk": 1},
 ]
 TOL = 2e-4
@@ -98,6 +100,24 @@ def run_kernel_unit(res, unit):
         interface = gs.DictInterface(kl.dict_log_prob_jax)
         state0 = kl.dict_state()
     epoch = EpochConfig(EpochType.POSTERIOR, 10, 1, None).to_state(2, 7)
+
+    if is_liesel and unit.get("auto_update") is not False:
+        # creating kernels must not modify the user's model; afterwards a direct assignment
+        # (relying on the default auto-update) must give a coherent model.state
+        before_auto, before_state = model.auto_update, kl.state_leaves(model.state)
+        for spec in unit["kernels"]:
+            kl.make_kernel(spec, model)
+        after = kl.state_leaves(model.state)
+        if model.auto_update != before_auto or any(not kl.leaves_equal(after[k], before_state[k]) for k in after):
+            res.violation("kernel", "kernel-construction-modifies-user-model", {"kernels": unit["kernels"]}, f"creating the kernels changed the user's model (auto_update {before_auto} -> {model.auto_update})")
+        model.vars["mu"].value = jnp.float32(0.35)
+        st = model.state
+        ref = kl.ref_liesel(kl.params_of_state(st))
+        lv = kl.state_leaves(st)
+        bad = [n for n, want in ref.items() if lv[n] is None or not np.allclose(np.asarray(lv[n], dtype=np.float64), want, rtol=1e-4, atol=TOL)]
+        if bad or any(bool(ns.outdated) for ns in st.values()):
+            res.violation("kernel", "initial-state-incoherent-after-kernel-construction", {"kernels": unit["kernels"]}, f"after creating the kernels and assigning mu on the user's model, model.state is incoherent at {bad[:4]} (outdated: {[k for k, ns in st.items() if ns.outdated][:4]})")
+        state0 = st
 
     def execute(script: core.Script, n_iter: int):
         log = []
@@ -172,7 +192,7 @@ def run_kernel_unit(res, unit):
             # (4) rejection returns the input state exactly
             if moved is False and changed:
                 res.violation("kernel", f"reject-changes-state-{spec['type']}", case, f"{spec['type']}{spec['keys']} reported a rejection but changed {sorted(changed)[:4]} ({case})")
-            if moved is True and spec["type"] != "GIBBS" and not (changed & ({kl.param_node(p) for p in spec["keys"]} if is_liesel else set(spec["keys"]))):
+            if moved is True and spec["type"] not in ("GIBBS", "PPGIBBS") and not (changed & ({kl.param_node(p) for p in spec["keys"]} if is_liesel else set(spec["keys"]))):
                 res.violation("kernel", f"accept-without-move-{spec['type']}", case, f"{spec['type']}{spec['keys']} reported acceptance but its parameters did not change ({case})")
             # (3) coherence of all derived quantities
             if is_liesel:
@@ -236,7 +256,7 @@ def run_engine_unit(res, unit):
         EpochConfig(EpochType.BURNIN, 10, 1, None),
         EpochConfig(EpochType.POSTERIOR, 10, 1, None),
     ])
-    derived = ["sigma", "eta", "pred", "mu_log_prob", "beta_log_prob", "log_sigma_log_prob", "sigma_log_prob", "z_log_prob", "offset_log_prob", "y_log_prob", "_model_log_prob", "_model_log_prior", "_model_log_lik"]
+    derived = ["sigma", "eta", "pred", "rep_stat", "w", "w_transformed_log_prob", "mu_log_prob", "beta_log_prob", "log_sigma_log_prob", "sigma_log_prob", "z_log_prob", "offset_log_prob", "y_log_prob", "_model_log_prob", "_model_log_prior", "_model_log_lik"]
     b.positions_included = kl.PARAMS + derived
     with seams.quiet():
         eng = b.build()
